@@ -98,6 +98,8 @@ def sparse_attr(interp, o: ObjV, name: str):
         return d
     if name in ("row", "col"):
         return Grid([[(idx, ext)]], Num(Poly.app(name, str(pat), chain, Poly.atom(idx))))
+    if name in ("indptr", "indices"):
+        return Term("sp." + name, [_freeze_sparse(o)])
     if name == "shape":
         return Term("shape", [o])
     if name == "T":
@@ -118,6 +120,10 @@ def chain_after(chain: tuple, conv: str) -> tuple:
 
 
 def sparse_convert(interp, o: ObjV, conv: str) -> ObjV:
+    # scipy: X.tocoo() on a coo array, X.tocsr() on a csr array, X.tocsc() on a csc array return X itself (copy=False)
+    if conv in ("tocoo", "tocsr", "tocsc") and o.attrs["__fmt__"].v == conv[2:]:
+        o.log.append(("alias_conversion", conv))
+        return o
     chain = chain_after(o.attrs["__chain__"].v, conv)
     n = new_sparse(Term(conv, [o], {"data_at_call": o.attrs.get("data", Const(None))}), o.attrs["__pattern__"].v, chain,
                    o.attrs.get("shape"), fmt=conv[2:] if conv.startswith("to") else o.attrs["__fmt__"].v)
@@ -1175,12 +1181,34 @@ def call_ext(interp, dotted: str, args: List[V], kwargs: Dict[str, V], node, cc)
             return interp.binop(ast.Pow(), args[0], args[1])
         if nm == "squeeze":
             return args[0]
+        if nm == "clip" and len(args) + len([k for k in kwargs if k in ("a_min", "a_max")]) >= 3:
+            lo = kwargs.get("a_min", args[1] if len(args) > 1 else Const(None))
+            hi = kwargs.get("a_max", args[2] if len(args) > 2 else Const(None))
+
+            def clipf(p, lo=lo, hi=hi):
+                if isinstance(lo, Num) and isinstance(hi, Num):
+                    return Poly.app("clamp", p, lo.p, hi.p)
+                if isinstance(hi, Num):
+                    return Poly.app("clamp_hi", p, hi.p)
+                if isinstance(lo, Num):
+                    return Poly.app("clamp_lo", p, lo.p)
+                return Poly.top("clip bounds")
+            return _map_elem(interp, args[0], clipf, "clip")
+        if nm in ("minimum", "maximum") and len(args) == 2:
+            a, b = args
+            fn_name = "clamp_hi" if nm == "minimum" else "clamp_lo"
+            if isinstance(b, Num) and b.p.is_const():
+                return _map_elem(interp, a, lambda p, b=b: Poly.app(fn_name, p, b.p), nm)
+            if isinstance(a, Num) and a.p.is_const():
+                return _map_elem(interp, b, lambda p, a=a: Poly.app(fn_name, p, a.p), nm)
         if nm == "outer" and len(args) == 2 and isinstance(args[0], Grid) and isinstance(args[1], Grid) and \
                 args[0].ndim == 1 and args[1].ndim == 1:
             a, b = args
             f = lambda x, y: Num(x.p * y.p) if isinstance(x, Num) and isinstance(y, Num) else Term("mult", [x, y])
             return Grid([a.dims[0], b.dims[0]], f(a.elem, b.elem))
         return Term(nm, args, kwargs)
+    if d in ("numpy.add.reduceat", "numpy.maximum.reduceat", "numpy.minimum.reduceat", "numpy.multiply.reduceat"):
+        return Term("reduceat", [Const(d.split(".")[1])] + list(args), kwargs)
     if d in ("numpy.random.seed",):
         interp.events.append(("seed", args, interp.where()))
         return Const(None)
